@@ -115,13 +115,29 @@ class FeaGen(object):
             self.pre.append("%s = %s;" % (name, self._inline(glyphs)))
             self.stmt_kinds.add("named-class")
             return name
-        if r < 0.3 and len(glyphs) >= 3:
-            k = rnd.randrange(1, len(glyphs))
+        if r < 0.4 and len(glyphs) >= 3:
+            # brackets mixing glyph names, ranges and class references in any order: the part
+            # glyphs[i:j] becomes a named class, what precedes and follows stays inline
+            i = rnd.randrange(0, len(glyphs) - 1)
+            j = rnd.randrange(i + 1, len(glyphs) + (1 if i else 0))
             self.ncls += 1
             name = "@C%d" % self.ncls
-            self.pre.append("%s = %s;" % (name, self._inline(glyphs[:k])))
-            self.stmt_kinds.add("nested-class")
-            return "[%s %s]" % (name, " ".join(self.g(x) for x in glyphs[k:]))
+            self.pre.append("%s = %s;" % (name, self._inline(glyphs[i:j])))
+            parts = []
+            if i:
+                parts.append(self._inline(glyphs[:i])[1:-1])
+            parts.append(name)
+            rest = glyphs[j:]
+            if len(rest) >= 2 and rnd.random() < 0.3:
+                self.ncls += 1
+                name2 = "@C%d" % self.ncls
+                self.pre.append("%s = %s;" % (name2, self._inline(rest[:1] if len(rest) < 3 else rest[:2])))
+                parts.append(name2)
+                rest = rest[1:] if len(rest) < 3 else rest[2:]
+            if rest:
+                parts.append(self._inline(rest)[1:-1])
+            self.stmt_kinds.add("nested-class" if not i else "glyphs-before-class-in-brackets")
+            return "[%s]" % " ".join(parts)
         return self._inline(glyphs)
 
     def _inline(self, glyphs):
@@ -490,8 +506,71 @@ class FeaGen(object):
         n[k] = rnd.choice(alt)
         return n
 
+    def _partitioned(self, named, pos):
+        """A contextual lookup all of whose rules draw backtrack, input and lookahead from one
+        partition of the glyphs into a few classes (what makes the compiler choose the class
+        based Format 2), with backtracks of two or three positions in different classes."""
+        rnd = self.rnd
+        kind = "cpos" if pos else "chain"
+        ft, fm = self.flag(kind)
+        big = rnd.random() < 0.55     # many rules over few large classes: Format 2 becomes the smallest encoding
+        pool = (LETTERS + SC + ALTS) if big else (LETTERS[:12] + SC[:3])
+        rnd.shuffle(pool)
+        part, i = [], 0
+        for _ in range(4 if big else rnd.randrange(3, 6)):
+            k = rnd.choice([4, 4, 5]) if big else rnd.choice([2, 2, 3])
+            part.append(sorted(pool[i:i + k], key=ORDER.index))
+            i += k
+        lines, rules, wit, near, seen = [], [], [], [], set()
+        prev_ctx = None
+        for _ in range(rnd.randrange(18, 26) if big else rnd.randrange(4, 8)):
+            nb = rnd.choice([2, 2, 2, 3, 1])
+            back = [rnd.choice(part) for _i in range(nb)]
+            if nb >= 2 and all(b == back[0] for b in back):
+                back[0] = rnd.choice([c for c in part if c != back[1]])
+            inp = [rnd.choice(part) for _i in range(rnd.choice([1, 1, 2]))]
+            ahead = [rnd.choice(part) for _i in range(rnd.choice([0, 1, 1, 2]))]
+            key = (tuple(map(tuple, back)), tuple(map(tuple, inp)), tuple(map(tuple, ahead)))
+            if key in seen or (key[0], key[2]) == prev_ctx:
+                continue
+            seen.add(key)
+            prev_ctx = (key[0], key[2])
+            r = rnd.random()
+            if r < 0.2:
+                lines.append("ignore %s %s;" % ("pos" if pos else "sub", self.ctx_text(back, [self.cls(x) + "'" for x in inp], ahead)))
+                rule = {"back": back, "input": inp, "ahead": ahead, "lookups": [[] for _i in inp]}
+                self.stmt_kinds.add("ignore-pos" if pos else "ignore-sub")
+            elif pos:
+                marked, lks = [], []
+                for x in inp:
+                    vt, v = self.value()
+                    marked.append("%s' %s" % (self.cls(x), vt))
+                    lks.append([{"kind": "spos", "flag": fm, "values": {g_: v for g_ in x}}])
+                lines.append("pos %s;" % self.ctx_text(back, marked, ahead))
+                rule = {"back": back, "input": inp, "ahead": ahead, "lookups": lks}
+            else:
+                inp = inp[:1]
+                t = self.dst_glyph(inp[0])
+                inline = {"kind": "subst", "flag": fm, "subtables": [[((g_,), (t,)) for g_ in inp[0]]]}
+                lines.append("sub %s by %s;" % (self.ctx_text(back, [self.cls(inp[0]) + "'"], ahead), self.g(t)))
+                rule = {"back": back, "input": inp, "ahead": ahead, "lookups": [[inline]]}
+            rules.append(rule)
+            w, plain = self.ctx_witness(rule["back"], rule["input"], rule["ahead"], fm)
+            wit.append(w)
+            if len(back) >= 2:
+                # the same glyphs with the backtrack in the opposite order must not match
+                near.append(plain[:len(back)][::-1] + plain[len(back):])
+            near.append(self.near_miss(plain, rule["back"] + rule["input"] + rule["ahead"]))
+        if len(rules) < 2:
+            return self._partitioned(named, pos)
+        self.stmt_kinds.add("ctx-class-partition")
+        model = {"kind": kind, "flag": fm, "subtables": [rules]}
+        return Lk("GPOS" if pos else "GSUB", kind, model, lines, ft, wit, near)
+
     def k_chain(self, named):
         rnd = self.rnd
+        if rnd.random() < 0.3:
+            return self._partitioned(named, False)
         ft, fm = self.flag("chain")
         lines, subtables, wit, near = [], [[]], [], []
         refs = [l for l in self.named if l.table == "GSUB" and l.kind in ("single", "multiple", "ligature", "alternate")]
@@ -892,6 +971,8 @@ class FeaGen(object):
 
     def k_cpos(self, named):
         rnd = self.rnd
+        if rnd.random() < 0.3:
+            return self._partitioned(named, True)
         ft, fm = self.flag("cpos")
         lines, subtables, wit, near = [], [[]], [], []
         refs = [l for l in self.named if l.table == "GPOS" and l.kind in ("spos", "ppos")]
@@ -1292,3 +1373,136 @@ def make_texts(rnd, prog, n_random=12):
 
 def generate(rnd, level=3):
     return FeaGen(rnd, level).generate()
+
+
+AXIS = ("wght", 100, 400, 900)
+VAR_LOCS = [None, 100, 250, 400, 650, 900]
+
+
+def generate_variable(rnd):
+    """A feature file for a one-axis variable font: single and pair values (glyph and class
+    pairs), contextual values and mark/base anchors given as variable scalars whose masters
+    are listed in varying order.  Master values are multiples of 40, so the interpolated
+    values at the probed locations are integers."""
+    masters = [100, 400, 900]
+
+    def scalar(nonzero_default=True):
+        vals = [40 * rnd.randrange(-4, 5) for _ in masters]
+        if nonzero_default and not vals[1]:
+            vals[1] = 40
+        if len(set(vals)) == 1:
+            vals[2] += 80
+        pts = list(zip(masters, vals))
+        show = list(pts)
+        rnd.shuffle(show)
+        return "(%s)" % " ".join("wght=%d:%d" % p for p in show), vals[1], {"var": pts}
+
+    def value():
+        r = rnd.random()
+        if r < 0.5:
+            t, d, ex = scalar()
+            return t, (0, 0, d, 0, {"xa": ex})
+        fields, text, ex = [0, 0, 0, 0], [], {}
+        for i, f in enumerate(("xp", "yp", "xa", "ya")):
+            q = rnd.random()
+            if i < 3 and q < 0.5:
+                t, d, e = scalar(i == 2)
+                fields[i], ex[f] = d, e
+                text.append(t)
+            elif i < 3 and q < 0.7:
+                fields[i] = 40 * rnd.randrange(1, 4)
+                text.append(str(fields[i]))
+            else:
+                text.append("0")
+        if not ex:
+            t, d, e = scalar()
+            fields[2], ex["xa"] = d, e
+            text[2] = t
+        return "<%s>" % " ".join(text), tuple(fields) + (ex,)
+
+    def anchor():
+        r = rnd.random()
+        x, y = rnd.randrange(0, 500), rnd.randrange(0, 800)
+        ex, tx, ty = {}, str(x), str(y)
+        if r < 0.7:
+            tx, x, ex["x"] = scalar()
+        if r > 0.4:
+            ty, y, ex["y"] = scalar()
+        return "<anchor %s %s>" % (tx, ty), (x, y, ex)
+
+    cls = lambda gl: "[" + " ".join(gl) + "]"
+    pre, lines, gpos, texts = [], [], [], []
+    marks = {}
+    for mk in ("acute", "grave", "cedilla"):
+        at, a = anchor()
+        cname = "TOP" if mk != "cedilla" else "BOT"
+        pre.append("markClass %s %s @%s;" % (mk, at, cname))
+        marks[mk] = (cname, a)
+    pre.append("table GDEF {\n    GlyphClassDef [%s], [%s], [%s], ;\n} GDEF;" % (" ".join(LETTERS + SC), " ".join(LIGS), " ".join(MARKS)))
+    gdef = dict([(g, 1) for g in LETTERS + SC] + [(g, 2) for g in LIGS] + [(g, 3) for g in MARKS])
+    feats = {}
+    order = ["spos", "ppos", "cpos", "mbase"]
+    rnd.shuffle(order)
+    for fi, kind in enumerate(order):
+        tag = "tst%d" % (fi + 1)
+        lines.append("feature %s {" % tag)
+        if kind == "spos":
+            vals = {}
+            for g in rnd.sample(LETTERS, 4):
+                t, v = value()
+                lines.append("    pos %s %s;" % (g, t))
+                vals[g] = v
+                texts.append([g])
+            gpos.append({"kind": "spos", "flag": {}, "values": vals})
+        elif kind == "ppos":
+            pairs, rules = [], []
+            for _ in range(3):
+                a, b = rnd.sample(LETTERS[:7], 2)
+                if any(p[0] == a and p[1] == b for p in pairs):
+                    continue
+                t, d, ex = scalar()
+                lines.append("    pos %s %s %s;" % (a, b, t))
+                pairs.append((a, b, (0, 0, d, 0, {"xa": ex}), None))
+                texts.append([a, b])
+            lefts = [LETTERS[7:9], LETTERS[9:11]]
+            rights = [LETTERS[11:13], SC[:2], SC[2:4]]
+            for l in lefts:
+                for r_ in rnd.sample(rights, 2):
+                    t, d, ex = scalar(rnd.random() < 0.6)
+                    lines.append("    pos %s %s %s;" % (cls(l), cls(r_), t))
+                    rules.append((l, r_, (0, 0, d, 0, {"xa": ex}), None))
+                    texts.append([rnd.choice(l), rnd.choice(r_)])
+            gpos.append({"kind": "ppos", "flag": {}, "pairs": pairs, "classes": [rules]})
+        elif kind == "cpos":
+            rules = []
+            for _ in range(2):
+                b, i, a = rnd.sample(LETTERS, 3)
+                t, v = value()
+                lines.append("    pos %s %s' %s %s;" % (b, i, t, a))
+                rules.append({"back": [[b]], "input": [[i]], "ahead": [[a]], "lookups": [[{"kind": "spos", "flag": {}, "values": {i: v}}]]})
+                texts.append([b, i, a])
+            gpos.append({"kind": "cpos", "flag": {}, "subtables": [rules]})
+        else:
+            bases = {}
+            for g in rnd.sample(LETTERS, 3):
+                d, parts = {}, []
+                for cname in ("TOP", "BOT"):
+                    at, a = anchor()
+                    parts.append("%s mark @%s" % (at, cname))
+                    d[cname] = a
+                lines.append("    pos base %s %s;" % (g, " ".join(parts)))
+                bases[g] = d
+                texts.append([g, rnd.choice(sorted(marks))])
+                texts.append([g, "cedilla", "acute"])
+            gpos.append({"kind": "mbase", "flag": {}, "marks": dict(marks), "bases": bases})
+        lines.append("} %s;" % tag)
+        feats[tag] = [len(gpos) - 1]
+    model = {"advances": dict(ADVANCES), "gdef": gdef, "GSUB": [], "GPOS": gpos, "axis": AXIS,
+             "langsys": {"GSUB": {}, "GPOS": {"DFLT": {"dflt": {"features": feats, "required": []}}}}}
+    tags = sorted(feats)
+    allon = {t: 1 for t in tags}
+    tt = []
+    for seq in texts + [[rnd.choice(LETTERS + MARKS[:2]) for _i in range(rnd.randrange(2, 6))] for _ in range(8)]:
+        for loc in VAR_LOCS:
+            tt.append(("variable", seq, allon, "DFLT", "dflt", loc))
+    return {"fea": "\n".join(pre + lines) + "\n", "model": model, "tags": tags, "kinds": ["variable-scalar", "variable-anchor"], "axis": AXIS}, tt
